@@ -18,6 +18,7 @@ LEVEL_TEXT = ("count <= true multiplicity is evaluated after every event for eve
 LEVEL_NOTE = "ghost truth in unbounded Python integers, keyed by identity; no assumption on which cell a key owns"
 BUDGET = {"quick": 75, "thorough": 360}
 SHARDS = {"quick": 1, "thorough": 16}
+BOUNDSCHECK = True
 
 
 def hook(run, i, ev):
